@@ -392,6 +392,22 @@ func evalC16(h *History) *Outcome {
 		o.Probes = c.Probes
 		return o
 	}
+	// What a failing Invoke had built before it failed depends on the
+	// unspecified resolution order, and that partial progress can move later
+	// executions across registrations. Claims are therefore made up to the
+	// first Invoke that fails after it started resolving (a failure of the
+	// Invoke's own shallow dependency check builds nothing); if there is none,
+	// over the whole history including the census.
+	limit := len(hc.Ops)
+	for i, x := range c.R.Res {
+		if hc.Ops[i].Kind == OpInvoke && x.Verdict != VOK && !c.HarmlessFail[i] {
+			limit = i + 1
+			break
+		}
+	}
+	if limit == len(hc.Ops) {
+		c.probe("twin_full_history")
+	}
 	// tau1: second linearisation
 	th, perm, moved := permuteBlocks(hc, c.R.Res, r)
 	if th != nil && moved {
@@ -402,10 +418,12 @@ func evalC16(h *History) *Outcome {
 		for j, i := range perm {
 			inv[i] = j
 		}
-		if d := compareObs(prim, tobs, func(i int) int { return inv[i] }, "wiring-on-success"); d != nil {
+		// the permutation keeps Invokes in place, so the prefix is the same in both runs
+		primP, wiringOK := prim[:limit], limit == len(hc.Ops)
+		if d := compareObs(primP, tobs, func(i int) int { return inv[i] }, "wiring-on-success"); d != nil {
 			o.Viol = append(o.Viol, Violation{Props: []string{"C16"}, Class: "order-dependent-outcome", Op: d.Op,
 				Detail: fmt.Sprintf("a second order of the accepted registrations changes op %d (%s): %s; twin order %v", d.Op, hc.Ops[d.Op].Kind, d.Detail, perm)})
-		} else if w := compareWiring(c.R, tr); w != "" {
+		} else if w := compareWiring(c.R, tr); w != "" && wiringOK {
 			o.Viol = append(o.Viol, Violation{Props: []string{"C16"}, Class: "order-dependent-wiring", Op: -1,
 				Detail: fmt.Sprintf("a second order of the accepted registrations changes the wiring: %s; twin order %v", w, perm)})
 		}
@@ -426,7 +444,7 @@ func evalC16(h *History) *Outcome {
 		}
 		if !cyc {
 			c.probe("defer_toggled")
-			if d := compareObs(prim, Observe(tr), func(i int) int { return i }, "exact"); d != nil {
+			if d := compareObs(prim[:limit], Observe(tr), func(i int) int { return i }, "exact"); d != nil {
 				o.Viol = append(o.Viol, Violation{Props: []string{"C16"}, Class: "deferral-changes-outcome", Op: d.Op,
 					Detail: fmt.Sprintf("toggling DeferAcyclicVerification (no cycle reported in either run) changes op %d (%s): %s", d.Op, hc.Ops[d.Op].Kind, d.Detail)})
 			}
@@ -522,7 +540,7 @@ func init() {
 		Gen: genGeneric("C16", func(g *genCtx) {
 			g.ft.FaultRate, g.ft.FaultInv = 0, 0
 			g.ft.PRetry = 0.1
-			g.ft.PAvail = 0.9
+			g.ft.PAvail = []float64{0.9, 0.98, 1}[g.r.Intn(3)]
 			g.ft.PDup = 0.03
 			if g.ft.MaxScopes < 2 {
 				g.ft.MaxScopes = 3
